@@ -62,7 +62,7 @@ def gen_shape(rng, auto):
     durOf, nextOf, mf = {}, {}, []
     for s in names:
         if rng.random() < 0.55:
-            durOf[s] = rng.choice([0, 1, 2, 3, 5, 8])
+            durOf[s] = rng.choice([0, 1, 2, 3, 5, 8, 64, 128])
             nextOf[s] = rng.choice(["none"] + names) if rng.random() < 0.75 else "none"
         else:
             durOf[s] = -1
@@ -153,7 +153,8 @@ class Machine:
                 nx = shape["nextOf"][s]
                 if basevar == "fliptimed":
                     nx = "none"
-                return timed_state(duration=dur / 64.0,
+                # whole seconds are written as int literals (duration=2), as user code does
+                return timed_state(duration=(dur // 64 if dur % 64 == 0 and dur > 0 else dur / 64.0),
                                    next_state=(None if nx == "none" else nx),
                                    first=is_first, must_finish=is_mf)(fn)
             if not is_first and not is_mf and variant == 0:
@@ -358,7 +359,14 @@ class Machine:
                 raise ClockError("FPGA time off the 1/64 s grid: %r" % t)
             self.emit(ev, with_obs=False)
         elif k == "setdur":
-            self.inst.getEntry("/components/%s/state/%s_duration" % (self.name, ev["s"])).setDouble(ev["d"] / 64.0)
+            path = "/components/%s/state/%s_duration" % (self.name, ev["s"])
+            if self.inst.getTopic(path).getTypeString() == "int":
+                # a duration written as an int literal makes an integer topic: a dashboard can only send whole seconds
+                if ev["d"] % 64 != 0:
+                    return
+                self.inst.getEntry(path).setInteger(ev["d"] // 64)
+            else:
+                self.inst.getEntry(path).setDouble(ev["d"] / 64.0)
             self.emit(ev, with_obs=False)
         elif k in ("execute", "aiter"):
             self.run_iteration(ev)
@@ -398,7 +406,7 @@ class RandomSource:
                 elif r < 0.30:
                     yield {"e": "tick", "d": rng.choice([0, 1, 1, 2, 3, 5, 8, 13])}
                 elif r < 0.34 and self.timed:
-                    yield {"e": "setdur", "s": rng.choice(self.timed), "d": rng.choice([1, 2, 4])}
+                    yield {"e": "setdur", "s": rng.choice(self.timed), "d": rng.choice([1, 2, 4, 96, 40, 64, 128])}
                 else:
                     yield {"e": "aiter"}
                     if self.style == "steady":
@@ -440,7 +448,7 @@ class RandomSource:
             elif r < p_eng + 0.30:
                 yield {"e": "tick", "d": rng.choice([0, 1, 1, 2, 3, 5, 8, 13, 40])}
             elif r < p_eng + 0.34 and self.timed:
-                yield {"e": "setdur", "s": rng.choice(self.timed), "d": rng.choice([1, 2, 4])}
+                yield {"e": "setdur", "s": rng.choice(self.timed), "d": rng.choice([1, 2, 4, 96, 40, 64, 128])}
             else:
                 yield {"e": "execute"}
 
@@ -566,7 +574,7 @@ def main():
         for i in range(a.n):
             auto = {"0": False, "1": True}.get(a.auto)
             if auto is None:
-                auto = rng.random() < 0.5
+                auto = rng.random() < (0.2 if a.auto == "some" else 0.5)
             shape, extra = gen_shape(rng, auto)
             n = rng.choice([a.len // 2, a.len, a.len * 2])
             traces.append(run_trace(a.first_id + i, shape, extra, lambda sh: RandomSource(rng, sh, n)))
